@@ -48,6 +48,66 @@ func dependsOnBroken(u Universe, v vertex) bool {
 	return false
 }
 
+// cleanSubtree: nothing reachable from v is unresolvable or lies on a cycle.
+func cleanSubtree(u Universe, v vertex) bool {
+	if dependsOnBroken(u, v) {
+		return false
+	}
+	seen := map[string]bool{}
+	stack := []vertex{v}
+	for len(stack) > 0 {
+		x := stack[len(stack)-1]
+		stack = stack[:len(stack)-1]
+		if seen[x.key()] {
+			continue
+		}
+		seen[x.key()] = true
+		if u.OnCycle(x.loc, x.kind) {
+			return false
+		}
+		stack = append(stack, u.succ(x)...)
+	}
+	return true
+}
+
+// completenessWalk walks the input element and the output value in parallel and reports every
+// position where the input holds a reference with a clean subtree while the output still holds a $ref.
+func completenessWalk(u Universe, in side, out interface{}, kind Kind, ptr string, visited map[string]bool, bad func(ptr, ref string)) {
+	if r, isRef := refOf(in.val); isRef && kind.refable() {
+		v := vertex{in.loc, kind}
+		if visited[v.key()] {
+			return
+		}
+		visited[v.key()] = true
+		if !cleanSubtree(u, v) {
+			return
+		}
+		if or, still := refOf(out); still {
+			bad(ptr, or)
+			return
+		}
+		loc, tv, err := u.Resolve(in.loc.URL, r)
+		if err != nil {
+			return
+		}
+		completenessWalk(u, side{u, loc, tv}, out, kind, ptr, visited, bad)
+		return
+	}
+	_, ci := mchildren(kind, in.val)
+	_, co := mchildren(kind, out)
+	outBy := map[string]mchild{}
+	for _, c := range co {
+		outBy[c.key] = c
+	}
+	for _, c := range ci {
+		oc, ok := outBy[c.key]
+		if !ok {
+			continue
+		}
+		completenessWalk(u, side{u, Loc{in.loc.URL, in.loc.Ptr + c.key}, c.val}, oc.val, c.kind, ptr+c.key, visited, bad)
+	}
+}
+
 func errorsCheck(c *Ctx, cs *expCase) string {
 	u := cs.effectiveUniverse()
 	f := u.facts(cs.Root, cs.Opts.Skip)
@@ -103,50 +163,35 @@ func errorsCheck(c *Ctx, cs *expCase) string {
 		}
 		// unresolvable schema refs verbatim, everything else as usual
 		oracleMeaning(u, cs, o, true, report)
-		// elements that do not depend on a broken reference and reach no cycle are completely expanded
+		// every sub-element that does not depend on a broken reference and reaches no cycle is completely
+		// expanded, wherever it stands (also next to a broken sibling)
 		for _, e := range rootElements(cs.Root, u[cs.Root]) {
-			if dependsOnBroken(u, e) {
+			iv, _ := ptrGet(u[cs.Root], e.loc.Ptr)
+			ov, ok := ptrGet(o.Out, e.loc.Ptr)
+			if !ok {
 				continue
 			}
-			cyc := false
-			seen := map[string]bool{}
-			stack := []vertex{e}
-			for len(stack) > 0 && !cyc {
-				x := stack[len(stack)-1]
-				stack = stack[:len(stack)-1]
-				if seen[x.key()] {
-					continue
-				}
-				seen[x.key()] = true
-				if u.OnCycle(x.loc, x.kind) {
-					cyc = true
-				}
-				stack = append(stack, u.succ(x)...)
-			}
-			if cyc {
-				continue
-			}
-			if ev, ok := ptrGet(o.Out, e.loc.Ptr); ok {
-				var left []string
-				var walk func(kind Kind, v interface{})
-				walk = func(kind Kind, v interface{}) {
-					if r, ok := refOf(v); ok && kind.refable() {
-						left = append(left, r)
-						return
-					}
-					_, ch := mchildren(kind, v)
-					for _, cc := range ch {
-						walk(cc.kind, cc.val)
-					}
-				}
-				walk(e.kind, ev)
-				if len(left) > 0 {
-					sort.Strings(left)
-					report("independent-element-not-expanded", e.loc.Ptr, fmt.Sprintf("element does not depend on any unresolvable reference but keeps %v", left))
-				}
-			}
+			completenessWalk(u, side{u, e.loc, iv}, ov, e.kind, e.loc.Ptr, map[string]bool{}, func(ptr, ref string) {
+				report("independent-element-not-expanded", ptr, fmt.Sprintf("$ref %q is kept although nothing below it is unresolvable or circular", ref))
+			})
 		}
 	})
+	if cs.Opts.Cont {
+		// the single-schema entry point obeys the same contract
+		root := mustParse(string(cs.Docs[cs.Root]))
+		for _, e := range rootElements(cs.Root, root) {
+			if e.kind != KSchema {
+				continue
+			}
+			verifrt.Reset(nil, false)
+			r := doCall(cs, call{Fn: "ExpandSchemaWithBasePath", Elem: e.loc.Ptr, Opts: cs.Opts}, nil, budget)
+			if r.Err != "" {
+				feat := map[string]string{"symptom": "error-despite-continue", "sigx": "fn=ExpandSchemaWithBasePath breaks=" + cs.Feat["breaks"]}
+				c.Violate(Violation{Oracle: "errors", Class: "error-despite-continue", Pointer: e.loc.Ptr, Detail: "ExpandSchemaWithBasePath: " + r.Err, Features: feat, Case: *cs})
+				outcome = "error-despite-continue"
+			}
+		}
+	}
 	if ch := expGuard.changed(); ch != "" && !expGuard.reported {
 		expGuard.reported = true
 		c.Violate(Violation{Oracle: "errors", Class: "package-state-changed", Detail: ch, Features: map[string]string{"symptom": "package-state-changed"}, Case: *cs})
